@@ -21,7 +21,8 @@ struct DownInjector : Monitor {
 
 	int capacity(uint16_t qt) const
 	{
-		switch (qt) { case QT_NULL: case QT_PRIVATE: return 3000; case QT_TXT: return 2500; case QT_MX: case QT_SRV: return 2000; default: return 110; }
+		// the statement's range is 2..4096 for every type whose answer format can hold that much (hostname answers cannot)
+		switch (qt) { case QT_NULL: case QT_PRIVATE: case QT_TXT: case QT_MX: case QT_SRV: return 4090; default: return 110; }
 	}
 
 	// called from the path for every datagram
